@@ -1332,6 +1332,8 @@ class Expression(Term):
             if other.params is not None:
                 return False
         else:
+            if other.params is None:
+                return False
             if set(self.params.keys()) != set(other.params.keys()):
                 return False
             for k in self.params.keys():
